@@ -312,6 +312,13 @@ def judge(ctx, root, case):
     if links:
         from gemato.recursiveloader import ManifestRecursiveLoader
         from vf.model import findtop
+        # (only links whose target is a sibling: walking up from the target then passes
+        # the same directories as walking up from the link's name - for any other link
+        # the command and the library may legitimately mean different directories)
+        links = [x for x in sorted(links)
+                 if os.path.dirname(os.path.realpath(os.path.join(root, x)))
+                 == os.path.realpath(os.path.dirname(os.path.join(root, x)))]
+    if links:
         lsub = sorted(links)[0]
         ft = findtop.find_top(os.path.join(root, lsub))
         # (discovery from a symlinked start is only defined where walking up by name
